@@ -10,7 +10,7 @@ import (
 func init() {
 	families["C08"] = famC08
 	rules["C08"] = "random ASTs over all operators (towers mixing or/and/=/!=/</<=/>/>=/+/-/*/div/mod/unary minus/|), paths with all abbreviations, predicates, filter expressions, calls, variables, literals and numerals, with names containing '-', '.', digits and names that spell axes and node types; " +
-		"each rendered with minimal parentheses, with redundant parentheses, with arbitrary legal whitespace and in the canonical form of Syn/Render.v (which the model parser provably reads back to the AST: Syn/LexThm.v): BuildExpr must accept every rendering and the compiled query must evaluate like the AST (the model evaluator on the AST), i.e. identically across renderings; " +
+		"each rendered with minimal parentheses, with redundant parentheses, with arbitrary legal whitespace and in the two canonical forms of Syn/Render.v, steps in full and abbreviated (which the model parser provably reads back to the AST: Syn/LexThm.v): BuildExpr must accept every rendering and the compiled query must evaluate like the AST (the model evaluator on the AST), i.e. identically across renderings; " +
 		"the model's own parser must read every rendering back to an AST with the same value (validates the string side of the model); hand-picked token-boundary cases (a-b, a -b, a - b, * * *, a*b, child::child, 4 div 2, //*, /*); " +
 		"non-expressions: character- and token-level mutations of valid renderings: accepted/rejected and the value must agree with the model parser (spec), so nothing is accepted with a part ignored; " +
 		"disagreements explained by the three lexical restrictions of the generated lexer are the open known finding; 200 repeated BuildExpr of one string must evaluate identically; non-trivial: the expression has >= 2 binary operators of different precedence or an abbreviation; distinct by text"
@@ -184,15 +184,19 @@ func famC08(rn *Runner) {
 						fmt.Sprintf("%q evaluates to %s but %q (the same AST) to %s", v, rv, minimal, r0))
 				}
 			}
-			// the canonical rendering of Syn/Render.v, which Syn/LexThm.v proves the model parser reads back to this AST
-			if can := rn.M.Ask("(render " + SxExpr(e) + ")"); strings.HasPrefix(can, "S ") {
-				rc := check(decodeStr(can), "canonical-rendering", e, nontrivial)
-				if rc != r0 && !(strings.HasPrefix(rc, "L") && strings.HasPrefix(r0, "L") && agree(rc, r0)) && !rn.TooMany() {
-					rn.Report(&Replay{Family: "canonical-rendering", Clause: "all renderings of one AST evaluate identically", Kind: "parse", Events: d.Events, Doc: showEvents(d.Events), Env: env, Text: decodeStr(can), ExprSx: SxExpr(e), Impl: rc, Model: r0, Note: "minimal rendering: " + minimal},
-						fmt.Sprintf("%q evaluates to %s but %q (the same AST) to %s", decodeStr(can), rc, minimal, r0))
+			// the canonical renderings of Syn/Render.v (steps in full / abbreviated), which Syn/LexThm.v proves the
+			// model parser reads back to this AST
+			for _, ab := range []string{"0", "1"} {
+				fam := map[string]string{"0": "canonical-rendering", "1": "canonical-abbreviated"}[ab]
+				if can := rn.M.Ask("(render " + ab + " " + SxExpr(e) + ")"); strings.HasPrefix(can, "S ") {
+					rc := check(decodeStr(can), fam, e, nontrivial)
+					if rc != r0 && !(strings.HasPrefix(rc, "L") && strings.HasPrefix(r0, "L") && agree(rc, r0)) && !rn.TooMany() {
+						rn.Report(&Replay{Family: fam, Clause: "all renderings of one AST evaluate identically", Kind: "parse", Events: d.Events, Doc: showEvents(d.Events), Env: env, Text: decodeStr(can), ExprSx: SxExpr(e), Impl: rc, Model: r0, Note: "minimal rendering: " + minimal},
+							fmt.Sprintf("%q evaluates to %s but %q (the same AST) to %s", decodeStr(can), rc, minimal, r0))
+					}
+				} else {
+					rn.Count(fam + ":none (" + can + ")")
 				}
-			} else {
-				rn.Count("canonical-rendering:none (" + can + ")")
 			}
 			// non-expressions: mutations of a valid rendering
 			for k := 0; k < 3; k++ {
